@@ -22,7 +22,7 @@ const verif::Info verif_info = {
     "Generated three ways: grammar (fields built from every item of the mini-language incl. empty/signed/blank numbers, stray bytes, nested '{', missing '}', then cut / delete / insert / "
     "replace at a chosen position), token soup over the dictionary, raw bytes (libFuzzer, seeds = the 221 format strings of test_format.cpp and their prefixes); enumerated: every prefix "
     "of those 221 strings and every single-position edit (cut, delete, insert token, replace by token) of 24 hand-written strings that use every production, x 10 argument lists. "
-    "Digit runs are rewritten to values <= 400 (counted). Oracle: outcome of ST::format (default and assume_valid), ST::printf(FILE*) and ST::writef(ostringstream) is output, "
+    "Digit runs whose parsed int exceeds 400 are rewritten to values <= 400 (counted); runs >= 2^31 that narrow to a negative or small int are kept. Oracle: outcome of ST::format (default and assume_valid), ST::printf(FILE*) and ST::writef(ostringstream) is output, "
     "ST::bad_format, std::out_of_range, ST::unicode_error, std::invalid_argument only for a null format; bad_format / out_of_range only where the reference interpreter finds a "
     "malformed field / an unsupplied position; the character-padding contract assertion only where the reference interpreter predicts it for that field; the three sinks agree on "
     "the kind; no other assertion, exception, sanitizer report or hang. Non-trivial: the format contains a '{' that is not part of '{{'.",
@@ -76,11 +76,11 @@ uint8_t ab(int type_index, int value_index) { return (uint8_t)(value_index * NT 
 
 // ----- format generators --------------------------------------------------------------------
 const char *const kTokens[] = {"{", "}", "{{", "}}", "_", ".", "&", "+", "#", "0", "<", ">", "x", "X", "d", "o", "b", "c", "f", "e", "E",
-                               "1", "2", "3", "5", "9", "10", "64", "70", "400", " ", "-", "\t", "{}", "{c}", "{_", "{.", "{&", "\x7f", "\x80", "\xff", "a", "{&1", "{.70e}", "{f}", "{5c}", "_}", "_{"};
+                               "1", "2", "3", "5", "9", "10", "64", "70", "400", "2147483648", "4294967295", "4294967301", " ", "-", "\t", "{}", "{c}", "{_", "{.", "{&", "\x7f", "\x80", "\xff", "a", "{&1", "{.70e}", "{f}", "{5c}", "_}", "_{"};
 const int kNumTokens = sizeof kTokens / sizeof kTokens[0];
 
 std::string gen_number(verif::Reader &r) {
-    static const char *const nums[] = {"1", "0", "2", "5", "9", "10", "12", "40", "63", "64", "65", "70", "100", "255", "256", "399", "400", "401", "999", "1000", "4294967296", "99999999999999999999",
+    static const char *const nums[] = {"1", "0", "2", "5", "9", "10", "12", "40", "63", "64", "65", "70", "100", "255", "256", "399", "400", "401", "999", "1000", "4294967296", "99999999999999999999", "2147483648", "4294967295", "6442450944", "4294967301", "18446744073709551615",
                                        "", " 5", "+5", "-5", "-0", "007", "\t3", "- 1", "+", "-"};
     return r.pick(nums);
 }
@@ -142,15 +142,22 @@ void apply_edit(std::string &s, int kind, size_t pos, const char *tok) {
     default: break;
     }
 }
-// Resource bound: every maximal run of ASCII digits keeps only the digits that leave its value <= 400.
+// Resource bound: a maximal run of ASCII digits is kept whole when the int the parser ends up with is <= 400 whatever sign
+// precedes it (this admits runs >= 2^31 that narrow to a negative or small int: "2147483648", "4294967295", "4294967301",
+// "99999999999999999999"); any other run keeps only the digits that leave its value <= 400.
 bool cap_digit_runs(std::string &s) {
-    std::string o; bool changed = false; long v = 0; bool in = false;
-    for (char ch : s) {
-        if (ch >= '0' && ch <= '9') {
-            long nv = (in ? v : 0) * 10 + (ch - '0');
-            if (nv > 400) { changed = true; continue; }      // drop this digit
-            v = nv; in = true; o += ch;
-        } else { in = false; v = 0; o += ch; }
+    std::string o; bool changed = false;
+    for (size_t i = 0; i < s.size();) {
+        if (s[i] < '0' || s[i] > '9') { o += s[i++]; continue; }
+        size_t j = i; unsigned long long acc = 0; bool over = false;
+        while (j < s.size() && s[j] >= '0' && s[j] <= '9') { if (acc > (ULLONG_MAX - 9) / 10) over = true; else acc = acc * 10 + (unsigned)(s[j] - '0'); j++; }
+        long pos = (over || acc > (unsigned long long)LONG_MAX) ? LONG_MAX : (long)acc;
+        long neg = (over || acc > (unsigned long long)LONG_MAX + 1ull) ? LONG_MIN : (long)(0 - acc);
+        // (not directly after '_': the pad character would swallow the first digit and the parser would see the rest of the run)
+        if ((i == 0 || s[i - 1] != '_') && ref::narrow_int(pos) <= 400 && ref::narrow_int(neg) <= 400) { o.append(s, i, j - i); i = j; continue; }
+        long v = 0;
+        for (size_t k = i; k < j; k++) { long nv = v * 10 + (s[k] - '0'); if (nv > 400) { changed = true; continue; } v = nv; o += s[k]; }
+        i = j;
     }
     if (changed) s = o;
     return changed;
